@@ -2,7 +2,11 @@
 //! case, the request lines and the implementation's observations for the Lean driver.
 mod common;
 mod gens;
+mod p01;
+mod p04;
+mod p05;
 mod p12;
+mod tri;
 
 use common::{Out, Rng};
 
@@ -64,6 +68,9 @@ fn main() {
     }
     let mut rng = Rng::new(cfg.seed);
     match cfg.prop.as_str() {
+        "C01" => p01::run(&cfg, &mut rng, &mut out),
+        "C04" => p04::run(&cfg, &mut rng, &mut out),
+        "C05" => p05::run(&cfg, &mut rng, &mut out),
         "C12" => p12::run(&cfg, &mut rng, &mut out),
         p => {
             eprintln!("unknown property {p}");
